@@ -17,12 +17,13 @@ RULE = ("one run = a generated object tree (depth 1-3, random and non-random sub
         "constraints under the values assigned in pre_randomize; the values seen in every "
         "post_randomize equal those read after the call returns. Non-trivial = a judged call on a tree "
         "with >=2 callback-bearing objects; distinct = (tree shape, op 3-grams)."
-        " One party may be of a class with nothing random and nothing constrained (callbacks of the called object still run once each).")
+        " One party may be of a class with nothing random and nothing constrained (callbacks of the called object still run once each)."
+        " Some calls are re-entered: the top object's pre_randomize makes a nested randomize() on a non-random sub-object; the nested call shows exactly its own callbacks, the enclosing call none of them.")
 REAL = ["pyvsc (all of src/vsc)", "PyBoolector"]
 STUB = ["user code (generated callbacks recording events)", "stdout (sink)"]
 ASSUMPTIONS = ["the event log's global sequence number orders callbacks; object identity is mapped to "
                "its attribute path in the party's tree"]
-REQUIRED_NONZERO = {"*": ["judged_calls", "cb_events", "nonrand_subtrees", "pre_assignments",
+REQUIRED_NONZERO = {"*": ["reentrant_calls", "judged_calls", "cb_events", "nonrand_subtrees", "pre_assignments",
                           "failed_calls_before_judged", "sub_calls"]}
 
 
